@@ -28,8 +28,10 @@ package trust
 //@   ensures result1 == nil ==> stKey == cppki.trcKey(trc.TRC) && stSerial == old(stSerial) + 1 && insCount == old(insCount) + 1
 //@   ensures result1 != nil ==> stKey == old(stKey) && stSerial == old(stSerial) && insCount == old(insCount)
 
+//@ # a fetched TRC is a decoded one: no nil certificate pointers
 //@ iface Fetcher.TRC
 //@   modifies nothing
+//@   ensures result1 == nil ==> forall ci int :: 0 <= ci && ci < len(result0.TRC.Certificates) ==> result0.TRC.Certificates[ci] != nil
 //@ iface Recurser.AllowRecursion
 //@   modifies nothing
 //@ iface Router.ChooseServer
